@@ -291,3 +291,9 @@ for _n, _op in COMPARE.items():
 
         c.setup = _fill_setup
         _con.cases.append(c)
+
+
+# C17 ("the layout is ... identical at compile time and in emitted logic"): to_bits concatenates the members with `@`; the operand
+# order of the emitted concatenation (also of the REFLECTED one, constant @ signal) is part of the serialised layout
+for _n in ("__matmul__", "__rmatmul__"):
+    contract(f"cohdl._core._type_qualifier:TypeQualifier.<replacement of {_n}>", ("C17",))
